@@ -34,6 +34,9 @@ func otTemplate(variant string) string {
 		return "just a string, not an object: [\n"
 	case "empty":
 		return ""
+	case "needs-b":
+		// cannot be rendered while the optional source b is missing (len of nothing is an error)
+		return "apiVersion: v1\nkind: ConfigMap\nmetadata:\n  name: ot-target\ndata:\n  a: \"{{ .config.a }}\"\n  blen: \"{{ len (index .config \"b\") }}\"\n"
 	case "foreign-target":
 		return "apiVersion: v1\nkind: ConfigMap\nmetadata:\n  name: ot-target\n  namespace: ns2\ndata:\n  a: \"{{ .config.a }}\"\n"
 	}
@@ -94,7 +97,7 @@ func GenOT(w *World, maxEdits int, opts ...string) *Scenario {
 			delete(m, "namespace")
 		}
 	}
-	variants := []string{"valid", "valid", "valid", "unparsable", "cluster-target", "foreign-target"}
+	variants := []string{"valid", "valid", "valid", "unparsable", "cluster-target", "foreign-target", "needs-b"}
 	if g.Cluster {
 		variants = []string{"valid", "valid", "unparsable"}
 	}
@@ -181,6 +184,15 @@ func GenOT(w *World, maxEdits int, opts ...string) *Scenario {
 		case 3:
 			if i == nE-1 {
 				sc.UserOps = append(sc.UserOps, UserOp{Label: "delete ot-1", Do: func(w *World) { _ = w.TP("user", w.Mgmt).Delete(g.Key, "Background") }})
+			} else if !hostile {
+				// delete the template and bring it back (new UID): its watches are released and taken again
+				again := store.Copy(ot)
+				sc.UserOps = append(sc.UserOps, UserOp{Label: "delete ot-1 (to be re-created)", Do: func(w *World) { _ = w.TP("user", w.Mgmt).Delete(g.Key, "Background") }})
+				sc.UserOps = append(sc.UserOps, UserOp{Label: "re-create ot-1", Do: func(w *World) {
+					if _, exists := w.Mgmt.Objs[g.Key]; !exists {
+						_, _ = w.TP("user", w.Mgmt).Create(store.Copy(again))
+					}
+				}})
 			}
 		}
 	}
